@@ -153,11 +153,12 @@ func runC14(c *hx.Ctx) error {
 	var progs []*program
 	// VERIF_C14_STRICT=1 (authoring time, fixes/FINDING-CLASSES.md point 3): the run consists of the
 	// streams that predict known defects, and a class whose predictions come true in less than 95 %
-	// of at least 20 predicted programs is a break
+	// of at least 12 predicted programs is a break
 	strict := os.Getenv("VERIF_C14_STRICT") == "1"
+	strictBias = strict
 	for i := 0; i < n; i++ {
 		if strict {
-			if i%4 == 0 {
+			if i%3 == 0 {
 				progs = append(progs, genSeq(c.R))
 			} else {
 				progs = append(progs, genForms(c.R))
@@ -465,8 +466,8 @@ func runC14(c *hx.Ctx) error {
 			pred, came := res.Histogram["class/"+k.id+"/predicted"], res.Histogram["class/"+k.id+"/fail-as-predicted"]
 			switch {
 			case !activeKnown[k.id] || !predicting[k.id]:
-			case pred < 20:
-				res.AddBreak(proto.Break{Kind: "correspondence", Name: "finding-class-precision-unmeasured: " + k.id, Case: "C14 strict", Impl: fmt.Sprintf("%d programs predicted", pred), Model: "at least 20"})
+			case pred < 12:
+				res.AddBreak(proto.Break{Kind: "correspondence", Name: "finding-class-precision-unmeasured: " + k.id, Case: "C14 strict", Impl: fmt.Sprintf("%d programs predicted", pred), Model: "at least 12"})
 			case came*100 < pred*95:
 				res.AddBreak(proto.Break{Kind: "correspondence", Name: "finding-class-too-broad: " + k.id, Case: "C14 strict", Impl: fmt.Sprintf("%d of %d predictions came true", came, pred), Model: "at least 95 %"})
 			}
